@@ -109,8 +109,10 @@ func (r *Reader) getTopics() []string {
 func (r *Reader) useSyncCommits() bool { return r.config.CommitInterval == 0 }
 
 func (r *Reader) unsubscribe() {
+	if verifOn { verifEvent("R.Unsubscribe", r, "begin") }
 	r.cancel()
 	r.join.Wait()
+	if verifOn { verifEvent("R.Unsubscribe", r, "end") }
 	// it would be interesting to drain the r.msgs channel at this point since
 	// it will contain buffered messages for partitions that may not be
 	// re-assigned to this reader in the next consumer group generation.
@@ -134,6 +136,7 @@ func (r *Reader) subscribe(allAssignments map[string][]PartitionAssignment) {
 	}
 
 	r.mutex.Lock()
+	if verifOn { verifEvent("R.Subscribe", r, verifGroupOffsets(offsets), r.closed) }
 	r.start(offsets)
 	r.mutex.Unlock()
 
@@ -153,6 +156,7 @@ func (r *Reader) commitOffsetsWithRetry(gen *Generation, offsetStash offsetStash
 	for attempt := 0; attempt < retries; attempt++ {
 		if attempt != 0 {
 			if !sleep(r.stctx, backoff(attempt, backoffDelayMin, backoffDelayMax)) {
+				if verifOn { verifEvent("CL.RetryAbort", r, gen, attempt) }
 				return
 			}
 		}
@@ -197,6 +201,7 @@ func (r *Reader) commitLoopImmediate(ctx context.Context, gen *Generation) {
 	for {
 		select {
 		case <-ctx.Done():
+			if verifOn { verifEvent("CL.GenEnd", r, gen) }
 			// drain the commit channel and prepare a single, final commit.
 			// the commit will combine any outstanding requests and the result
 			// will be sent back to all the callers of CommitMessages so that
@@ -205,6 +210,7 @@ func (r *Reader) commitLoopImmediate(ctx context.Context, gen *Generation) {
 			for hasCommits := true; hasCommits; {
 				select {
 				case req := <-r.commits:
+					if verifOn { verifEvent("CL.Deq", r, gen, verifGroupCommits(req.commits), "drain") }
 					offsets.merge(req.commits)
 					errchs = append(errchs, req.errch)
 				default:
@@ -214,13 +220,16 @@ func (r *Reader) commitLoopImmediate(ctx context.Context, gen *Generation) {
 			err := r.commitOffsetsWithRetry(gen, offsets, defaultCommitRetries)
 			for _, errch := range errchs {
 				// NOTE : this will be a buffered channel and will not block.
+				if verifOn { verifEvent("CL.Reply", r, gen, verifGroupErr(err)) }
 				errch <- err
 			}
 			return
 
 		case req := <-r.commits:
+			if verifOn { verifEvent("CL.Deq", r, gen, verifGroupCommits(req.commits), "loop") }
 			offsets.merge(req.commits)
 			req.errch <- r.commitOffsetsWithRetry(gen, offsets, defaultCommitRetries)
+			if verifOn { verifEvent("CL.Replied", r, gen) }
 			offsets.reset()
 		}
 	}
@@ -240,6 +249,7 @@ func (r *Reader) commitLoopInterval(ctx context.Context, gen *Generation) {
 		if err := r.commitOffsetsWithRetry(gen, offsets, defaultCommitRetries); err != nil {
 			r.withErrorLogger(func(l Logger) { l.Printf("%v", err) })
 		} else {
+			if verifOn { verifEvent("CL.Reset", r, gen) }
 			offsets.reset()
 		}
 	}
@@ -247,10 +257,12 @@ func (r *Reader) commitLoopInterval(ctx context.Context, gen *Generation) {
 	for {
 		select {
 		case <-ctx.Done():
+			if verifOn { verifEvent("CL.GenEnd", r, gen) }
 			// drain the commit channel in order to prepare the final commit.
 			for hasCommits := true; hasCommits; {
 				select {
 				case req := <-r.commits:
+					if verifOn { verifEvent("CL.Deq", r, gen, verifGroupCommits(req.commits), "drain") }
 					offsets.merge(req.commits)
 				default:
 					hasCommits = false
@@ -260,9 +272,11 @@ func (r *Reader) commitLoopInterval(ctx context.Context, gen *Generation) {
 			return
 
 		case <-ticker.C:
+			if verifOn { verifEvent("CL.Tick", r, gen) }
 			commit()
 
 		case req := <-r.commits:
+			if verifOn { verifEvent("CL.Deq", r, gen, verifGroupCommits(req.commits), "loop") }
 			offsets.merge(req.commits)
 		}
 	}
@@ -277,6 +291,8 @@ func (r *Reader) commitLoop(ctx context.Context, gen *Generation) {
 		l.Printf("stopped commit for group %s\n", r.config.GroupID)
 	})
 
+	if verifOn { verifEvent("CL.Begin", r, gen, r.useSyncCommits()) }
+	if verifOn { defer verifEvent("CL.End", r, gen) }
 	if r.useSyncCommits() {
 		r.commitLoopImmediate(ctx, gen)
 	} else {
@@ -328,6 +344,7 @@ func (r *Reader) run(cg *ConsumerGroup) {
 		}
 
 		r.stats.rebalances.observe(1)
+		if verifOn { verifEvent("R.Gen", r, gen) }
 
 		r.subscribe(gen.Assignments)
 
